@@ -9,13 +9,17 @@ Run with `lake env lean --run DriverArnoldi.lean < cases.jsonl`.
 One JSON case per input line, one JSON answer per output line.  IEEE doubles travel as their
 64-bit patterns (JSON integers), complex numbers as pairs `[re_bits, im_bits]`.
 
-case  : {"id", "kind": "arnoldi" | "gmres", "complex": bool, "n", "M", "tol": bits,
-         "A": n rows of n scalars, "V": k start vectors (arnoldi) |
+case  : {"id", "kind": "arnoldi" | "gmres" | "arnoldi_eigs", "complex": bool, "n", "M", "tol": bits,
+         "A": n rows of n scalars, "V": k start vectors (arnoldi; arnoldi_eigs uses the first) |
          "B": k right-hand sides, "X0": k initial guesses (gmres),
-         "trim": bool (optional, arnoldi_eigs input), "drop": bool (optional, gmres switch)}
+         "trim": bool (optional, arnoldi_eigs input), "drop": bool (optional, gmres switch),
+         arnoldi_eigs only: "eigvals": k scalars, "eigvecs": k rows — the answer of `xnp.eig` (the PARAMETER `eig` of
+         `Arnoldi.arnoldiEigs`: the harness supplies LAPACK's answer and checks its contract on "eigsH")}
 answer: {"id", "steps", "iterations", "errors", "cols": [{"Q": M+1 vectors, "H": M columns of M+1}],
          "eigsH": rows of the matrix handed to xnp.eig (start vector 0), "trimPaddingInEigs": switch used,
-         gmres only: "soln": k vectors, "ys": k coefficient vectors, "products", "dropLastRow": switch used}
+         gmres only: "soln": k vectors, "ys": k coefficient vectors, "products", "dropLastRow": switch used,
+         arnoldi_eigs only: "ev": returned eigenvalues, "ritz": returned eigenvectors (k vectors of length n) —
+         the actual output of `Arnoldi.arnoldiEigs`}
 -/
 
 open Lean (Json)
@@ -88,6 +92,17 @@ def runCase (j : Json) (_w : α) : E Json := do
       [("soln", encMat r.soln.toArray), ("ys", encMat r.ys.toArray),
        ("products", Json.num (Lean.JsonNumber.fromNat r.products)),
        ("dropLastRow", Json.bool drop)]))
+  else if kind == "arnoldi_eigs" then
+    let Vs : Array (Array α) ← decMat (j.getObjValD "V")
+    let ev : Array α ← decVec (j.getObjValD "eigvals")
+    let vsr : Array (Array α) ← decMat (j.getObjValD "eigvecs")
+    match Vs[0]? with
+    | none => throw "arnoldi_eigs: no start vector"
+    | some v =>
+      -- `eig` is the parameter of the model: here the constant function returning the supplied answer
+      let r := arnoldiEigs (fun _ => (ev, vsr)) trim A n M tol v
+      pure (Json.mkObj ([("id", id)] ++ encState M trim r.2.2 ++
+        [("ev", encVec r.1), ("ritz", encMat r.2.1)]))
   else throw s!"unknown kind {kind}"
 end
 
